@@ -465,7 +465,9 @@ func (sc *scenario) attribute(d *delivery, evs []qlogwriter.Event) {
 	}
 	j := 0
 	last := -1 // part whose event came last
+	lastExtra := false // the latest packet event belonged to a queued packet of another datagram
 	assign := func(react string) {
+		lastExtra = false
 		if j >= len(d.parts) {
 			d.extra = append(d.extra, "surplus:"+react)
 			return
@@ -484,6 +486,7 @@ func (sc *scenario) attribute(d *delivery, evs []qlogwriter.Event) {
 	}
 	// a queued packet that is processed later (once its keys arrived) shows up as an event of another datagram
 	later := func(pt qlog.PacketType, received bool) {
+		lastExtra = true
 		kind := map[qlog.PacketType]string{qlog.PacketTypeInitial: "initial", qlog.PacketTypeHandshake: "handshake", qlog.PacketType1RTT: "short", qlog.PacketType0RTT: "0rtt"}[pt]
 		q := sc.buffered[d.conn]
 		for i := range q {
@@ -533,6 +536,11 @@ func (sc *scenario) attribute(d *delivery, evs []qlogwriter.Event) {
 				d.parts[last].react = fmt.Sprintf("vn:recreate:%d", uint32(e.ChosenVersion))
 			}
 		case qlog.ConnectionClosed:
+			if lastExtra {
+				// closed while handling a packet that had been queued earlier: not this datagram's doing
+				d.extra = append(d.extra, "closed:"+closedTxt(e))
+				continue
+			}
 			d.closed = closedTxt(e)
 			if last >= 0 && d.parts[last].react == "vn" && e.Trigger == qlog.ConnectionCloseTriggerVersionMismatch {
 				d.parts[last].react = "vn:fail"
